@@ -625,6 +625,28 @@ class IDeque(collections.deque):
         self.ctx.point("bool")
         return len(self) > 0
 
+    # every other way of looking at or emptying the shared deque is a scheduling point too (the code as it
+    # is uses none of them; a rewrite of the pump that does can be interleaved with the producers)
+    def __iter__(self):
+        self.ctx.point("iter")
+        return iter(list(collections.deque.__iter__(self)))
+
+    def clear(self):
+        self.ctx.point("clear")
+        return super().clear()
+
+    def copy(self):
+        self.ctx.point("copy")
+        return collections.deque(collections.deque.__iter__(self))
+
+    def pop(self):
+        self.ctx.point("popright")
+        return super().pop()
+
+    def __getitem__(self, index):
+        self.ctx.point("getitem")
+        return super().__getitem__(index)
+
 
 class PlainConn:
     def __init__(self):
@@ -678,19 +700,50 @@ def queue_run(counts, sched, with_stop=False):
         prods = [ctx.coop.spawn(producer(i), f"p{i}") for i in range(len(counts))]
         pump = ctx.coop.spawn(gw.tasks._poll_queue, "pump")
         stopper = ctx.coop.spawn(gw.tasks.stop, "stop") if with_stop else None
-        for th in prods + [pump] + ([stopper] if with_stop else []):
+        restarter, pump2, wanted = None, [], []
+        if with_stop:
+            # 'r': the user starts the stopped gateway again; the poll thread start() creates is run under the
+            # scheduler as well ('v')
+            class FakeThread:
+                def __init__(self, target=None, args=(), **_kw):
+                    self.target = target
+
+                def start(self):
+                    wanted.append(self.target)
+
+            class Proxy:
+                Thread = FakeThread
+
+                def __getattr__(self, name):
+                    return getattr(real_threading, name)
+            real_threading = task_mod.threading
+            task_mod.threading = Proxy()
+            gw.tasks.transport.connect = lambda: None
+            restarter = ctx.coop.spawn(gw.tasks.start, "restart")
+        for th in prods + [pump] + ([stopper, restarter] if with_stop else []):
             ctx.coop.prime(th)
         for a in sched:
-            th = pump if a == "u" else stopper if a == "s" else prods[a]
-            if not th.done:
+            if a == "v":
+                th = pump2[0] if pump2 else None
+            else:
+                th = pump if a == "u" else stopper if a == "s" else restarter if a == "r" else prods[a]
+            if th is not None and not th.done:
                 ctx.coop.resume(th)
+            while wanted:
+                new_pump = ctx.coop.spawn(wanted.pop(0), "pump2")
+                ctx.coop.prime(new_pump)
+                pump2.append(new_pump)
         sent = [w.strip() for w in conn.writes]
         queued = [item[1][0] for item in collections.deque.__iter__(dq)]
         tag = pump.tag if not pump.done else "done"
         return {"sent": sent, "queue": queued, "order": list(dq.order), "pump": tag,
-                "pump_status": pump.status, "stop_status": stopper.status if with_stop else None}
+                "pump_status": pump.status, "stop_status": stopper.status if with_stop else None,
+                "pump2_status": pump2[0].status if pump2 else None,
+                "restart_status": restarter.status if restarter else None}
     finally:
         task_mod.time = old_time
+        if with_stop:
+            task_mod.threading = real_threading
         ctx.coop.shutdown()
 
 
@@ -715,6 +768,10 @@ def judge_queue_stop(r):
         return ("pump-died", f"pump ended with {r['pump_status']}")
     if r["stop_status"] not in ("run", "ret", "done", "new"):
         return ("stop-raised", f"stop() ended with {r['stop_status']}")
+    if r.get("pump2_status") not in (None, "run", "ret", "done", "new"):
+        return ("pump-died", f"the poll thread of the second start() ended with {r['pump2_status']}")
+    if r.get("restart_status") not in (None, "run", "ret", "done", "new"):
+        return ("start-raised", f"start() ended with {r['restart_status']}")
     if len(set(r["sent"])) != len(r["sent"]):
         return ("sent-twice", f"a command was sent twice: {r['sent']}")
     in_order = [j for j in r["order"] if j in set(r["sent"])]
@@ -936,9 +993,14 @@ def run(tier, seed, driver):
         L = rng.randrange(6, 30)
         sched = [rng.choice(["u", "u", "s"] + list(range(np_))) for _ in range(L)]
         scases.append((cnts, sched))
+        # stop, start again, and both poll threads (the old one may not have noticed the stop yet)
+        k = rng.randrange(1, L)
+        sched2 = [rng.choice(["u", "u"] + list(range(np_))) for _ in range(k)] + ["s", "r"] + \
+                 [rng.choice(["u", "v", "v"] + list(range(np_))) for _ in range(L - k)]
+        scases.append((cnts, sched2))
     if tier == "quick":
         rng.shuffle(scases)
-        scases = scases[:1200]
+        scases = scases[:1500]
     blocked = 0
     for cnts, sched in scases:
         try:
